@@ -505,6 +505,45 @@ Definition build_coa_reply (fl : flags) (secret reqraw : bytes) (req : packet) (
       end
     else e2.
 
+(* The ORDER of the attributes of a reply is not constrained by the property (only that the reply verifies).  The
+   signing algorithm of sendResponse for an arbitrary attribute list: Message-Authenticator (wherever the placeholder
+   stands) first, Response Authenticator last. *)
+Definition sign_reply (secret reqauth : bytes) (code id : N) (attrs : list attr) : bytes :=
+  let body := enc_attrs attrs in
+  let hdr := [code; id] ++ put16 (N.of_nat (20 + length body)) in
+  let e1 := hdr ++ reqauth ++ body in
+  let e2 := match find_attr80 e1 with
+            | Some off => let z := set_at off e1 zeros16 in set_at off z (hmac secret z)
+            | None => e1
+            end in
+  set_at 4 e2 (md5 (e2 ++ secret)).
+
+(* admissible replies: the implementation's reply [r] may replace the model's [m] when it has the same code and
+   identifier, a consistent length, the same attributes up to ORDER (Message-Authenticator values apart), a regular
+   Message-Authenticator, and both authenticators verify against the request authenticator *)
+Definition attr_eqb (a b : attr) : bool := (fst a =? fst b) && beq (snd a) (snd b).
+Fixpoint remove_first (a : attr) (l : list attr) : option (list attr) :=
+  match l with
+  | [] => None
+  | b :: t => if attr_eqb a b then Some t
+              else match remove_first a t with Some t' => Some (b :: t') | None => None end
+  end.
+Fixpoint perm_eqb (l1 l2 : list attr) : bool :=
+  match l1 with
+  | [] => match l2 with [] => true | _ => false end
+  | a :: t => match remove_first a l2 with Some l2' => perm_eqb t l2' | None => false end
+  end.
+Definition zero_ma (l : list attr) : list attr :=
+  map (fun a => if (fst a =? 80) && (length (snd a) =? 16)%nat then (80, zeros16) else a) l.
+Definition reply_equiv (secret reqauth m r : bytes) : bool :=
+  match parse m, parse r with
+  | Some pm, Some pr =>
+    (p_code pm =? p_code pr) && (p_id pm =? p_id pr) && (length r =? declared_len r)%nat &&
+    perm_eqb (zero_ma (p_attrs pm)) (zero_ma (p_attrs pr)) && negb (ma_irregular r) &&
+    resp_auth_ok secret reqauth r && ma_resp_ok secret reqauth r
+  | _, _ => false
+  end.
+
 Inductive cevent :=
 | EvMutation (target : N * bytes) (delta : amap)
 | EvTerminate (target : N * bytes).
@@ -630,18 +669,25 @@ Definition reached_worker (o : coa_out) : bool :=
   end.
 (* the listener's admission with the admissible choice: an authenticated request with an irregular
    Message-Authenticator may be dropped as invalid ([rej] = the implementation dropped it) *)
-Definition coa_step_g (fl : flags) (rej : bool) (cfg : coacfg) (now : Z) (src bus : N) (raw : bytes) : coa_out :=
+Definition coa_step_g (fl : flags) (rej : bool) (orep : option bytes) (cfg : coacfg) (now : Z) (src bus : N) (raw : bytes)
+  : coa_out :=
   let out := coa_step fl cfg now src bus raw in
   if rej && ma_irregular (truncate raw) && reached_worker out then
     match out with
     | OReply cl _ _ _ | ODropInvalid cl _ | OSilent cl => ODropInvalid cl [SInvalid]
     | ODropUnknown => out
     end
-  else out.
+  else
+    (* second admissible choice: the wire ORDER of the reply's attributes ([orep] = the reply the implementation sent) *)
+    match out, orep, find_client 0 (clients cfg) src with
+    | OReply cl st m ev, Some r, Some (_, c) =>
+      if reply_equiv (c_secret c) (sub 4 16 raw) m r then OReply cl st r ev else out
+    | _, _, _ => out
+    end.
 
-Definition coa_step_st (fl : flags) (rej : bool) (cfg : coacfg) (now : Z) (src bus : N) (raw : bytes) (seen : cache)
+Definition coa_step_st (fl : flags) (rej : bool) (orep : option bytes) (cfg : coacfg) (now : Z) (src bus : N) (raw : bytes) (seen : cache)
   : coa_out * cache :=
-  let out := coa_step_g fl rej cfg now src bus raw in
+  let out := coa_step_g fl rej orep cfg now src bus raw in
   if f_dedup fl && reached_worker out then
     match dedup_key cfg src raw with
     | Some (sec, k) =>
@@ -661,12 +707,12 @@ Definition coa_step_st (fl : flags) (rej : bool) (cfg : coacfg) (now : Z) (src b
     end
   else (out, seen).
 
-Definition coa_input := (Z * N * N * bytes * bool)%type.   (* now, source, bus outcome, datagram, rej (see coa_step_g) *)
+Definition coa_input := (Z * N * N * bytes * bool * option bytes)%type.   (* now, source, bus outcome, datagram, rej, orep (see coa_step_g) *)
 Fixpoint coa_run (fl : flags) (cfg : coacfg) (seen : cache) (ins : list coa_input) : list coa_out :=
   match ins with
   | [] => []
-  | (now, src, bus, raw, rej) :: r =>
-    let '(o, seen') := coa_step_st fl rej cfg now src bus raw seen in o :: coa_run fl cfg seen' r
+  | (now, src, bus, raw, rej, orep) :: r =>
+    let '(o, seen') := coa_step_st fl rej orep cfg now src bus raw seen in o :: coa_run fl cfg seen' r
   end.
 
 (* Authenticate with the provider's extractAttributes (no custom response mappings) *)
